@@ -1,7 +1,7 @@
 (* C16 -- Boudot range proof.  Proved: what an accepted proof pins -- E' = E^(2^T), and (F8, repaired by 291caf1) the two
    square proofs are about E_a_1 / E_b_1 themselves, so sub-proofs cannot be transplanted onto a freely chosen E_?_1.
    Completeness for every interval and rejection of edited proofs: correspondence + sweep. *)
-From ZK Require Import Cl ClArith ClSig ClMore.
+From ZK Require Import Cl ClArith ClSig ClMore ClConsts ClMask.
 
 Theorem C16_boudot_accepts :
   forall BP p g h n rmin rmax,
@@ -26,3 +26,11 @@ Check (C16_tolerance_accepts_ties_squares :
   verify_of_tolerance BP p g h E n a b T = Ok true ->
   sq_E (wt_sqa p) = wt_Ea1 p /\ sq_E (wt_sqb p) = wt_Eb1 p).
 Print Assumptions C16_tolerance_accepts_ties_squares.
+
+(* F11: prover and verifier of the larger-interval proof use the same upper bound on D_1 (source tie, regenerated each run) *)
+Theorem C16_li_bounds_tied :
+  li_bounds_agree = true.
+Proof. exact li_bounds_tied. Qed.
+Check (C16_li_bounds_tied :
+  li_bounds_agree = true).
+Print Assumptions C16_li_bounds_tied.
